@@ -383,10 +383,16 @@ def ob_enhanced_structure(metric, ns, ant=2):
         o = it.call(bd.EnhancedBD, [K, 1.0, 0.1, 0.5])
         it.setattr(o, "iPu", iPu)          # attributes changed after construction: the CURRENT values count
         it.setattr(o, "pe", pe)
+        # sibling objects configured differently (a sweep with one precoder object per stream count) before AND after this one:
+        # every object keeps its own configuration
+        sib1 = it.call(bd.EnhancedBD, [K, 1.0, 0.1, 0.5])
+        it.call(it.getattr(sib1, "set_ext_int_handling_metric"), ["naive" if metric == "fixed" else "fixed", {"num_streams": ant if ns != ant else 1}])
         if metric == "None":
             it.call(it.getattr(o, "set_ext_int_handling_metric"), [None])
         else:
             it.call(it.getattr(o, "set_ext_int_handling_metric"), [metric, {"num_streams": ns}])
+        sib2 = it.call(bd.EnhancedBD, [K, 1.0, 0.1, 0.5])
+        it.call(it.getattr(sib2, "set_ext_int_handling_metric"), ["fixed", {"num_streams": ant if ns != ant else 1}])
         MsPk, Wk, Ns = it.call(it.getattr(o, "block_diagonalize_no_waterfilling"), [ch])
         goals = [Goal("one precoder, filter and stream count per user", len(MsPk) == K and len(Wk) == K and len(Ns) == K)]
         if not goals[0].cond:
